@@ -6,6 +6,7 @@ import (
 	"bytes"
 	"crypto/sha256"
 	"encoding/hex"
+	"encoding/json"
 	"fmt"
 	"os"
 	"path/filepath"
@@ -13,6 +14,7 @@ import (
 	"runtime"
 	"sort"
 	"strings"
+	"time"
 
 	"github.com/rhysd/actionlint"
 )
@@ -33,6 +35,7 @@ type detCase struct {
 	Cwd        string     `json:"cwd"` // relative to the temp root ("" = root)
 	Single     bool       `json:"single"` // additionally lint every arg alone with a fresh Linter (C10)
 	Reuse      bool       `json:"reuse"`  // one Linter instance for all repetitions (history of earlier runs)
+	Format     string     `json:"format"` // -format template ("" = default output); the rendered text is compared in every run
 }
 
 type fileDiag struct {
@@ -195,12 +198,12 @@ func runDetCase(c detCase) (res detResult) {
 		var err error
 		if c.Reuse {
 			if shared == nil {
-				shared, err = actionlint.NewLinter(&sharedBuf, &actionlint.LinterOptions{Color: actionlint.ColorOptionKindNever, WorkingDir: cwd})
+				shared, err = actionlint.NewLinter(&sharedBuf, &actionlint.LinterOptions{Color: actionlint.ColorOptionKindNever, WorkingDir: cwd, Format: c.Format})
 			}
 			l = shared
 			sharedBuf.Reset()
 		} else {
-			l, err = actionlint.NewLinter(&buf0, &actionlint.LinterOptions{Color: actionlint.ColorOptionKindNever, WorkingDir: cwd, Oneline: rep%2 == 1})
+			l, err = actionlint.NewLinter(&buf0, &actionlint.LinterOptions{Color: actionlint.ColorOptionKindNever, WorkingDir: cwd, Oneline: rep%2 == 1 && c.Format == "", Format: c.Format})
 			buf0.Reset()
 		}
 		if err != nil {
@@ -223,7 +226,7 @@ func runDetCase(c detCase) (res detResult) {
 		for _, d := range ds {
 			key += fmt.Sprintf("%s:%d:%d:%s:%s\x00", d.File, d.Line, d.Col, d.Kind, d.Msg)
 		}
-		if rep%2 == 0 || c.Reuse {
+		if rep%2 == 0 || c.Reuse || c.Format != "" {
 			key += "\x01" + text
 		}
 		res.Runs++
@@ -235,7 +238,7 @@ func runDetCase(c detCase) (res detResult) {
 		// two outcomes that differ only by the snippet text / oneline mode are the same outcome
 		merged := false
 		for i := range res.Outcomes {
-			if res.Outcomes[i].Fatal == fatal && reflect.DeepEqual(res.Outcomes[i].Diags, ds) && (rep%2 == 1 || res.Outcomes[i].Text == "" || res.Outcomes[i].Text == text) {
+			if res.Outcomes[i].Fatal == fatal && reflect.DeepEqual(res.Outcomes[i].Diags, ds) && ((rep%2 == 1 && c.Format == "") || res.Outcomes[i].Text == "" || res.Outcomes[i].Text == text) {
 				if rep%2 == 0 && res.Outcomes[i].Text == "" {
 					res.Outcomes[i].Text = text
 				}
@@ -250,7 +253,7 @@ func runDetCase(c detCase) (res detResult) {
 		}
 		idx[key] = len(res.Outcomes)
 		o := detOutcome{Count: 1, Fatal: fatal, Diags: ds, Procs: []int{p}}
-		if rep%2 == 0 {
+		if rep%2 == 0 || c.Format != "" {
 			o.Text = text
 		}
 		res.Outcomes = append(res.Outcomes, o)
@@ -290,6 +293,72 @@ func init() {
 			out = append(out, runDetCase(c))
 		}
 		return writeJSONL(args[1], out)
+	})
+}
+
+// clock-probe <out.json>: lints a workflow whose cron schedule has its two triggers around the NEXT minute boundary
+// (minute M and M+1 of the current hour), once before M and once between M and M+1, and at two more instants.  The
+// result of linting a fixed text must not depend on the wall clock.
+func init() {
+	register("clock-probe", func(args []string) error {
+		type probe struct {
+			At    string     `json:"at"`
+			Diags []fileDiag `json:"diags"`
+			Fatal string     `json:"fatal"`
+		}
+		type out struct {
+			Workflow string  `json:"workflow"`
+			Probes   []probe `json:"probes"`
+		}
+		var m time.Time
+		for {
+			now := time.Now()
+			m = now.Truncate(time.Minute).Add(time.Minute)
+			// both minutes in the same hour, and enough time left to lint before M
+			if m.Minute() <= 57 && m.Sub(now) > 3*time.Second {
+				break
+			}
+			time.Sleep(time.Second)
+		}
+		// in the zone time.Now() reports, which is what a clock dependent implementation would use
+		crons := []string{
+			fmt.Sprintf("%d,%d %d * * *", m.Minute(), m.Minute()+1, m.Hour()),
+			fmt.Sprintf("%d,%d %d %d * *", m.Minute(), m.Minute()+1, m.Hour(), m.Day()),
+			fmt.Sprintf("%d,%d %d %d %d *", m.Minute(), m.Minute()+1, m.Hour(), m.Day(), int(m.Month())),
+			fmt.Sprintf("%d,%d %d * * %d", m.Minute(), m.Minute()+1, m.Hour(), int(m.Weekday())),
+			fmt.Sprintf("%d %d * * *", m.Minute(), m.Hour()),
+			fmt.Sprintf("%d-%d %d * * *", m.Minute(), m.Minute()+2, m.Hour()),
+			fmt.Sprintf("%d,%d,%d * * * *", m.Minute(), m.Minute()+1, (m.Minute()+30)%60),
+		}
+		src := "on:\n  schedule:\n"
+		for _, c := range crons {
+			src += "    - cron: '" + c + "'\n"
+		}
+		src += "jobs:\n  a:\n    runs-on: ubuntu-latest\n    steps:\n      - run: echo\n"
+		o := out{Workflow: src}
+		lint := func() {
+			var buf bytes.Buffer
+			p := probe{At: time.Now().Format(time.RFC3339Nano)}
+			l, err := actionlint.NewLinter(&buf, &actionlint.LinterOptions{Color: actionlint.ColorOptionKindNever})
+			if err == nil {
+				var errs []*actionlint.Error
+				errs, err = l.Lint("w.yml", []byte(src), nil)
+				p.Diags = fileDiags(errs)
+			}
+			if err != nil {
+				p.Fatal = err.Error()
+			}
+			o.Probes = append(o.Probes, p)
+		}
+		lint() // before M
+		time.Sleep(time.Until(m.Add(1500 * time.Millisecond)))
+		lint() // between M and M+1
+		if len(args) < 2 || args[1] != "short" {
+			time.Sleep(time.Until(m.Add(61500 * time.Millisecond)))
+			lint() // between M+1 and M+2
+		}
+		b, _ := json.Marshal(o)
+		return os.WriteFile(args[0], b, 0o644)
 	})
 }
 
